@@ -103,6 +103,14 @@ def check(chk):
             g = ecfg.guards_at(n.id)
             chk.ob("TABLE-9", "bool is tested before int (bool is a subclass of int)", g.get("isinstance(v, bool)") is False, enc.where(n.ast),
                    detail="guards %s" % sorted(g.items()), construct=enc.ident, text="bool before int")
+    # exactness of the type dispatch: every value of a type takes that type's branch (no extra condition, no extra alternative)
+    from sa.helpers import elif_chain_exact
+    chain = sorted([n for n in vdefs if hasattr(n, "kind") and not (isinstance(n.ast.value, ast.Call) and call_attr(n.ast.value) in QUO)], key=lambda n: n.lineno)
+    if len(chain) >= 5:
+        for n, why in elif_chain_exact(ecfg, chain):
+            chk.ob("TABLE-9", "the encoder's type dispatch is exact: each value takes the branch of its type", False, enc.where(n.ast), detail=why, construct=enc.ident,
+                   text="encoder dispatch: " + why[:60])
+        chk.ob("TABLE-9", "the encoder's type dispatch has one branch per tagged type plus the plain-string branch (%d)" % len(chain), True, enc.where(), nontrivial=False)
     enc = enc_
     ecfg = enc.cfg()
     kq = [c for c in enc.calls() if call_attr(c) in QUO and src(c.args[0]) == "k"]
@@ -154,6 +162,17 @@ def check(chk):
     stores = [n for n in dcfg.nodes_where(lambda n: n.kind == "stmt" and isinstance(n.ast, ast.Assign) and src(n.ast.targets[0]) == "kwargs[name]")]
     if len(stores) < 6:
         chk.missing("TABLE-9", "the decoder stores a value on each of its six branches (int, float, true, false, None, text); found %d" % len(stores), dec)
+    from sa.helpers import elif_chain_exact, inloop_guards
+    dl = [h for h in dcfg.nodes if h.kind == "loop" and stores and any(y is stores[0].ast for y in ast.walk(h.ast))]
+    if dl:
+        shared = set.intersection(*[inloop_guards(dcfg, n.id, dl[-1].id) for n in stores])
+        from sa.cfg import canon_fact
+        want = {canon_fact("pair", True), canon_fact("name in kwargs", False)}
+        chk.ob("TABLE-9", "every non-empty pair with a new name is decoded - nothing else skips a parameter", shared == want, dec.where(dl[-1].ast),
+               detail="shared selection %s" % sorted(shared), construct=dec.ident, text="decoder pair selection")
+    for n, why in elif_chain_exact(dcfg, sorted(stores, key=lambda n: n.lineno)):
+        chk.ob("TABLE-9", "the decoder's tag dispatch is exact: each tagged text takes the branch of its tag", False, dec.where(n.ast), detail=why, construct=dec.ident,
+               text="decoder dispatch: " + why[:60])
     for n in stores:
         v = n.ast.value
         g = dcfg.guards_at(n.id)
@@ -415,6 +434,9 @@ def battery():
         M("debug logging summarises the payload in place", "mpf/core/bcp/bcp_interface.py", "                debug_kwargs = deepcopy(kwargs)\n                debug_kwargs['rawbytes'] = '<{} bytes>'.format(\n                    len(debug_kwargs.pop('rawbytes')))\n\n                self.debug_log(\"Processing command: %s %s\", cmd, debug_kwargs)", "                kwargs = dict(kwargs, rawbytes='<{} bytes>'.format(len(kwargs['rawbytes'])))\n                self.debug_log(\"Processing command: %s %s\", cmd, kwargs)", "PASS-19"),
         M("debug logging pops the payload", "mpf/core/bcp/bcp_interface.py", "                debug_kwargs = deepcopy(kwargs)\n", "                debug_kwargs = kwargs\n                kwargs.pop('rawbytes')\n", "PASS-19"),
         M("receive loop swaps command and parameters", "mpf/core/bcp/bcp_transport.py", "process_bcp_message(cmd, kwargs, transport)", "process_bcp_message(kwargs, cmd, transport)", "PASS-19"),
+        M("ints above a bound are sent as plain text", BS, "        elif isinstance(v, int):\n            value = 'int:{}'.format(value)", "        elif isinstance(v, int) and abs(v) < 2 ** 31:\n            value = 'int:{}'.format(value)", "TABLE-9"),
+        M("decoder accepts the None tag only for some names", BS, "        elif value == 'NoneType:':\n            kwargs[name] = None", "        elif value == 'NoneType:' and name != 'value':\n            kwargs[name] = None", "TABLE-9"),
+        M("decoder drops parameters named like an earlier prefix", BS, "        if name in kwargs:\n            continue", "        if name in kwargs or name.startswith('_'):\n            continue", "TABLE-9"),
     ]
 
 
